@@ -331,4 +331,7 @@ def run(ctx: Ctx):
         return
     if not run_given(ctx, "incompatible", incompatible_cases(), check_incompatible, per_shard(ctx, 200 if q else 4000), batch=25):
         return
-    run_given(ctx, "limit", limit_cases(), check_limit, per_shard(ctx, 80 if q else 1600), batch=20)
+    if not run_given(ctx, "limit", limit_cases(), check_limit, per_shard(ctx, 80 if q else 1600), batch=20):
+        return
+    if not q:
+        run_given(ctx, "merge-wide", merge_cases(5, 9), check_merge, per_shard(ctx, 12000), batch=40)
